@@ -23,6 +23,7 @@ import itertools
 from .. import thir, peval
 from ..peval import make, Enum, NONE, UNKNOWN
 from ..luaref import read_string_literal, LiteralError
+from .c15 import pmap
 
 N = "nodes::"
 EXPR = N + "expressions::Expression"
@@ -105,6 +106,35 @@ def check_text(text, value, interpolated=False):
     return None
 
 
+_CTX = None
+
+
+def _string_chunk(job):
+    """evaluates one chunk of byte strings on one generator; returns (n, first failure or None)"""
+    gi, values = job
+    ctx = _CTX
+    lib = ctx.lib
+    G, new, nargs = generators(ctx)[gi]
+    we, fin = trait_fn(lib, G, "write_expression"), trait_fn(lib, G, "into_string")
+    bad, n = None, 0
+    for value in values:
+        pe = peval.PEval(lib, ctx.an)
+        try:
+            gen = pe.call_fn(new, list(nargs))
+            node = Enum(EXPR, "String", {"0": make(lib, STR, {"value": list(value), "token": NONE})})
+            pe.call_fn(we, [gen, node])
+            text = pe.call_fn(fin, [gen])
+        except peval.OutOfFuel:
+            text = UNKNOWN
+        n += 1
+        why = check_text(text.strip("\n ") if isinstance(text, str) else text, value)
+        if why is not None and not isinstance(text, str):
+            why += " %s" % pe.unknown_reasons[:2]
+        if why is not None and bad is None:
+            bad = (value, why)
+    return n, bad
+
+
 def strings(R, ctx, tier):
     rid = "C13.strings"
     lib = ctx.lib
@@ -123,23 +153,12 @@ def strings(R, ctx, tier):
         fin = trait_fn(lib, G, "into_string")
         if not R.require(rid, "%s|anchor:write_expression" % G.split("::")[-1], we is not None and fin is not None, "", "write_expression / into_string not found"):
             continue
+        values = dom if gi == 0 or tier == "thorough" else short
+        chunks = [(gi, values[k:k + 400]) for k in range(0, len(values), 400)]
         bad, n = None, 0
-        # the full domain on the first generator of each distinct string writer; the others get the singles and long forms
-        for value in (dom if gi == 0 or tier == "thorough" else short):
-            pe = peval.PEval(lib, ctx.an)
-            try:
-                gen = pe.call_fn(new, list(nargs))
-                node = Enum(EXPR, "String", {"0": make(lib, STR, {"value": list(value), "token": NONE})})
-                pe.call_fn(we, [gen, node])
-                text = pe.call_fn(fin, [gen])
-            except peval.OutOfFuel:
-                text = UNKNOWN
-            n += 1
-            why = check_text(text.strip("\n ") if isinstance(text, str) else text, value)
-            if why is not None and isinstance(text, str) is False:
-                why += " %s" % pe.unknown_reasons[:2]
-            if why is not None and bad is None:
-                bad = (value, why)
+        for cn, cbad in pmap(_string_chunk, chunks):
+            n += cn
+            bad = bad or cbad
         R.ob(rid, "%s|roundtrip" % G.split("::")[-1], bad is None, ctx.where(we),
              "%d byte strings read back exactly" % n if bad is None else "value %r: %s" % (bad[0][:40], bad[1]))
         R.require(rid, "%s|floor" % G.split("::")[-1], n >= (3000 if gi == 0 or tier == "thorough" else 350), ctx.where(we), "%d byte strings evaluated" % n)
@@ -195,5 +214,7 @@ def run(R, ctx):
         "literals (sa/luaref.py). Nothing is executed. Number literals are not decided (floating-point arithmetic and printing).")
     R.assumptions += ["Luau / Lua 5.1 string syntax as transcribed in sa/luaref.py:read_string_literal (strict: unknown escapes are errors)",
                       "core::fmt's template encoding and integer formatting as modelled in sa/peval.py (format_one)"]
+    global _CTX
+    _CTX = ctx
     strings(R, ctx, R.tier)
     segments(R, ctx, R.tier)
